@@ -9,14 +9,14 @@ From Verif.C08 Require Import Model ProofsC.
 Fixpoint direct_branch (ss : stmts) : bool :=
   match ss with SNil => false | SCons s r => is_branch s || direct_branch r end.
 
-(* the fragment: no for-of; no finally list with a DIRECT break/continue (region of finding C08-N7) *)
+(* the fragment: no for-of *)
 Fixpoint frag (s : stmt) : bool :=
   match s with
   | Block b | Labeled _ b => frags b
   | If a b => frag a && frag b
   | Loop _ _ body => frag body
   | ForOf _ _ _ => false
-  | Try b _ c hasf f => frags b && frags c && frags f && negb (hasf && direct_branch f)
+  | Try b _ c _ f => frags b && frags c && frags f
   | _ => true
   end
 with frags (ss : stmts) : bool :=
@@ -111,13 +111,13 @@ Proof.
 Qed.
 
 (* ------------------------------------------------------------------------------------------------ *)
-(* block stacks of function-body mode inside the fragment: no needResult, no 'breaking' *)
+(* block stacks of function-body mode: no needResult *)
 
-Definition bs_ok (bs : list blk) : Prop := Forall (fun b => b_nr b = false /\ b_breaking b = None) bs.
+Definition bs_ok (bs : list blk) : Prop := Forall (fun b => b_nr b = false) bs.
 
 Lemma bs_ok_nth : forall bs k, bs_ok bs -> b_nr (nth k bs dflt_blk) = false.
 Proof.
-  intros bs k H. revert k. induction H as [|b r [Hn _] _ IH]; intros [|k]; simpl; auto.
+  intros bs k H. revert k. induction H as [|b r Hn _ IH]; intros [|k]; simpl; auto.
 Qed.
 
 Lemma list_mode_fn : forall bs ss, bs_ok bs -> list_mode bs false ss = None.
@@ -210,4 +210,65 @@ Lemma compile_branch_hit_cont : forall b bs p l, b_breaking b = None -> is_targe
 Proof.
   intros b bs p l Hb Ht Hl. unfold compile_branch. rewrite find_hit by assumption. rewrite Hl. simpl.
   rewrite Hl, Nat.add_0_r. reflexivity.
+Qed.
+
+
+(* 'breaking' resolutions: a branch compiled under a try block whose finally list has a direct branch *)
+Lemma fbb_label_res : forall bs k x ib r, fst (fbb_label bs k x ib (Some r)) = Some r.
+Proof.
+  induction bs as [|b bs IH]; intros k x ib r; simpl; auto.
+  destruct (olabel_eqb (b_label b) (Some x)); simpl; auto.
+Qed.
+
+Lemma find_breaking : forall bs j l ib,
+  find_break_block (mkBlk BTry None 0 0 false (Some j) :: bs) l ib = Some (S j) \/
+  find_break_block (mkBlk BTry None 0 0 false (Some j) :: bs) l ib = None.
+Proof.
+  intros bs j l ib. unfold find_break_block. destruct l as [x|]; simpl.
+  - destruct ib; simpl. { left. reflexivity. }
+    pose proof (fbb_label_res bs 1 x false (S j)) as E.
+    destruct (fbb_label bs 1 x false (Some (S j))) as [res [[k t]|]]; simpl in *; subst.
+    + destruct (negb (is_loop_typ t)); [right; reflexivity|left; reflexivity].
+    + left. reflexivity.
+  - left. reflexivity.
+Qed.
+
+Lemma compile_branch_breaking_head : forall bs j p l ib,
+  compile_branch (mkBlk BTry None 0 0 false (Some j) :: bs) p l ib = [INil] \/
+  exists r, compile_branch (mkBlk BTry None 0 0 false (Some j) :: bs) p l ib = ILeaveTry :: r.
+Proof.
+  intros bs j p l ib. unfold compile_branch.
+  destruct (find_breaking bs j l ib) as [E|E]; rewrite E; [|left; reflexivity].
+  right. cbn [exit_code b_typ]. simpl app.
+  destruct ib; [|destruct (is_loop_typ _)]; eexists; reflexivity.
+Qed.
+
+Lemma direct_branch_abrupt : forall n ss acc sc t c sc',
+  direct_branch ss = true -> exec_list n ss acc sc = Some (t, c, sc') -> is_normal c = false.
+Proof.
+  induction n as [|n IH]; intros ss acc sc t c sc' Hd H; [discriminate|].
+  destruct ss as [|s r]; [discriminate|]. simpl in Hd.
+  change (exec_list (S n) (SCons s r) acc sc) with
+    (match exec n s sc with
+     | None => None
+     | Some (t, c, sc1) =>
+         match update_empty c acc with
+         | CNormal v => match exec_list n r v sc1 with
+                        | Some (t2, c2, sc2) => Some (t ++ t2, c2, sc2) | None => None end
+         | c' => Some (t, c', sc1)
+         end
+     end) in H.
+  destruct (exec n s sc) as [[[t0 c0] sc1]|] eqn:E; [|discriminate].
+  destruct (update_empty c0 acc) eqn:EU; try (injection H as <- <- <-; reflexivity).
+  destruct (is_branch s) eqn:IB.
+  - exfalso. destruct s; try discriminate; destruct n; try discriminate; simpl in E; injection E as <- <- <-;
+      destruct acc; discriminate.
+  - simpl in Hd. destruct (exec_list n r v sc1) as [[[t2 c2] sc2]|] eqn:E2; [|discriminate].
+    injection H as <- <- <-. eapply IH; eauto.
+Qed.
+
+Lemma scan_some_direct : forall bs ss i lp k, snd (scan bs ss i lp) = Some k -> direct_branch ss = true.
+Proof.
+  intros bs ss i lp k H. destruct (direct_branch ss) eqn:E; auto.
+  rewrite scan_no_direct in H by assumption. discriminate.
 Qed.
